@@ -104,9 +104,9 @@ CHECKS.update({
          "The simulator replaces mailbox, remoting and scheduler by a deterministic driver (one OnReceive at a time, FIFO per pair, Ask answered inside the caller's turn). Failure detection reads the wall clock: simulated with a 30 ms time-out in a few healthy-cluster scenarios. KNOWN FINDINGS KF-C18-1..4 (crashed / left members never removed, fresh NodeID shadows the old incarnation, failure detection removes live members for ever).",
          "§5 C18"),
  "C10": ("other",
-         "TLA+ spec Confine (threads x children tables x protection, two-step accesses), TLC exhaustive; lockset discipline (Eraser) decided by the TLA+ monitor ConfineMon on accesses recorded through hooks; ungated stress of the documented-concurrent API in a child process with process-survival and tree-consistency oracles in ConfineMon; race-detector build as observer (thorough)",
-         "TLC checks on Confine that no two threads are ever inside conflicting accesses to a children table (external System.ActorOf under actorOfLock, the root's own turn on child death / stop, ordinary actors in their own turn) and shows the race for the variant without the root-turn lock. On the code, every access to a children table is recorded with goroutine, executing turn and held locks; ConfineMon applies the lockset state machine, which flags an unprotected shared table without the racy interleaving having to occur. The stress runs ActorOf (named and unnamed, also from inside actors), Kill, Tell, Ask, FindActor, Future.Close and event-stream calls from 9 goroutines against failing, restarting and terminating actors that are all subscribers of the stream; ConfineMon requires the process to survive (a Go fatal error is a violation) and, at quiescence, every registered actor to be listed by its parent and no table to hold an unregistered path. Thorough: the same stress built with -race; each distinct library function pair in a report is a violation.",
-         "Level 'other': the specification cannot see memory; races on memory the runs never touch are not decided. The race detector is part of the trusted base of the thorough tier. Hooks cover the children tables only (the other shared structures are lock- or sync.Map-protected and are exercised by the stress).",
+         "TLA+ spec Confine (threads x children tables x protection, two-step accesses), TLC exhaustive; lockset discipline (Eraser) decided by the TLA+ monitor ConfineMon on accesses recorded through hooks; ungated stress of the documented-concurrent API in a child process with process-survival and tree-consistency oracles in ConfineMon; race-detector build of the same stress as observer (both tiers)",
+         "TLC checks on Confine that no two threads are ever inside conflicting accesses to a children table (external System.ActorOf under actorOfLock, the root's own turn on child death / stop, ordinary actors in their own turn) and shows the race for the variant without the root-turn lock. On the code, every access to a children table is recorded with goroutine, executing turn and held locks; ConfineMon applies the lockset state machine, which flags an unprotected shared table without the racy interleaving having to occur. The stress runs ActorOf (named and unnamed, also from inside actors), Kill, Tell, Ask, FindActor, Future.Close and event-stream calls from 9 goroutines against failing, restarting and terminating actors that are all subscribers of the stream; ConfineMon requires the process to survive (a Go fatal error is a violation) and, at quiescence, every registered actor to be listed by its parent and no table to hold an unregistered path. The same stress is also built with -race (quick: one 2.5 s run, thorough: three 3 s runs); each distinct library function pair in a report is a violation.",
+         "Level 'other': the specification cannot see memory; races on memory the runs never touch are not decided. The race detector is part of the trusted base. Hooks cover the children tables only (the other shared structures are lock- or sync.Map-protected and are exercised by the stress).",
          "§5 C10"),
 })
 
